@@ -425,14 +425,14 @@ func slowGenBankOriginParser(length int) pars.Parser {
 			extent += len(prefix)
 
 			for j := 0; j < 60 && i+j < length; j += 10 {
-				if q[extent] != spaceByte {
+				if extent >= len(q) || q[extent] != spaceByte {
 					pos.Byte += extent
 					return pars.NewError("expected whitespace", pos)
 				}
 				extent++
 
 				for k := 0; k < 10 && i+j+k < length; k++ {
-					if !isBaseCharacter(q[extent]) {
+					if extent >= len(q) || !isBaseCharacter(q[extent]) {
 						pos.Byte += extent
 						return pars.NewError("expected character", pos)
 					}
